@@ -278,10 +278,11 @@ func (gr *gaterRun) awaitExpiry(m *ipModel, f ipForm) bool {
 		before := unix()
 		gs := gr.intercept(f)
 		if gs.Dial && gs.Accept && gs.SecuredIn {
-			gr.log("accepted again %s at unix %d (ban armed at %d..%d)", f.Addr, unix(), m.banBefore, m.banAfter)
-			if before < m.banBefore+gr.exp {
+			after := unix()
+			gr.log("accepted again %s at unix %d..%d (ban armed at %d..%d)", f.Addr, before, after, m.banBefore, m.banAfter)
+			if after <= m.banBefore+gr.exp {
 				k.Violation("banned-ip-accepted-before-expiry:"+family(f)+":during-wait", "a banned IP was accepted again before its ban can have expired",
-					gr.witness(map[string]any{"addr": f.Addr, "ban_before_unix": m.banBefore, "accepted_unix": before}))
+					gr.witness(map[string]any{"addr": f.Addr, "ban_before_unix": m.banBefore, "accepted_after_unix": after}))
 			}
 			return true
 		}
@@ -374,11 +375,11 @@ func runGaterSequence(k *mon.Case, sub int) {
 		}
 	}
 	// listBannedPeers agrees with the model where the model is certain
-	now := unix()
 	listed := map[string]bool{}
 	for _, ip := range g.ListBanned() {
 		listed[netip.MustParseAddr(ip.String()).Unmap().String()] = true
 	}
+	now := unix()
 	for _, m := range models {
 		if m.banned && now <= m.banBefore+gr.exp && !listed[m.canon] {
 			k.Violation("banned-ip-missing-from-listBannedPeers", "listBannedPeers does not list an IP whose ban cannot have expired",
@@ -737,6 +738,7 @@ type netScenario struct {
 	gwg      sync.WaitGroup
 	rlPen    int
 	interval time.Duration
+	okCalls  int // "ok" requests issued O -> V (each at most one message)
 }
 
 func (ns *netScenario) log(f string, a ...any) {
@@ -829,15 +831,24 @@ func (ns *netScenario) raw(from, to *p2pnet.Node, response bool, wire []byte) er
 	return s.Close()
 }
 
-// request sends one well-formed request under the deadlock rule.
+// request sends one well-formed request under the deadlock rule.  Its context expires before the
+// per-attempt response timeout, so RequestFrom cannot retry: one call = at most one message.
 func (ns *netScenario) request(from, to *p2pnet.Node, proc string, data []byte) (string, error) {
 	var resp p2p.Response
+	if from == ns.O && to == ns.V && proc == "ok" {
+		ns.okCalls++
+	}
 	ns.k.Watch("RequestFrom", watchdog, func() {
-		ctx, cancel := context.WithTimeout(context.Background(), 5*time.Second)
+		ctx, cancel := context.WithTimeout(context.Background(), netTimeout*2/3)
 		defer cancel()
 		resp = from.Conn.RequestFrom(ctx, to.ID(), proc, data)
 	})
 	return string(resp.Data()), resp.Error()
+}
+
+// settled waits until the victim has handled every "ok" request the offender has sent so far.
+func (ns *netScenario) settled(d time.Duration) bool {
+	return waitUntil(d, func() bool { return ns.served.Load() >= int64(ns.okCalls) })
 }
 
 func (ns *netScenario) bannedAtV(ip string) bool {
@@ -933,7 +944,6 @@ func runNetBan(k *mon.Case) {
 	// the offence
 	banBefore := unix()
 	garbage := []byte{0xff, 0xff, 0xff, 0xff, 0x07}
-	sent := 0
 	switch ns.trigger {
 	case "malformed-request-envelope":
 		err = ns.raw(ns.O, ns.V, false, garbage)
@@ -950,23 +960,39 @@ func runNetBan(k *mon.Case) {
 	case "invalid-sync-request:wrong-id-length":
 		_, _ = ns.request(ns.O, ns.V, "getBlocksFromID", append([]byte{0x0a, 0x1f}, make([]byte, 31)...))
 	case "rate-limit:penalty-100", "rate-limit:penalty-50x2":
+		// the limiter's interval is 1 h here, so "one interval" is the whole scenario
 		need := rlLimit + 1
 		if ns.rlPen == 50 {
 			need = 2 * (rlLimit + 1)
 		}
-		for i := 0; i < need; i++ {
+		for ns.served.Load() < int64(need) && ns.okCalls < 4*need && !ns.bannedAtV(offIP) {
 			_, e := ns.request(ns.O, ns.V, "ok", []byte("hello"))
-			sent++
-			// before the last message the score must be exactly penalty x floor(sent/(limit+1))
-			if i < need-1 {
-				want := ns.rlPen * (sent / (rlLimit + 1))
-				got, _, _ := g.Score(offIP)
-				if cnt, _ := ns.V.Conn.VerifMessageProtocol().VerifRateCounter("ok", ns.O.ID()); got != want {
-					k.Violation("rate-limit-score-wrong", "after n well-formed requests in one interval the sender's score is not penalty x floor(n/(limit+1))",
-						ns.wit(map[string]any{"sent": sent, "limit": rlLimit, "penalty": ns.rlPen, "score": got, "want": want, "counter": cnt, "last_error": fmt.Sprint(e)}))
-					return
-				}
+			if ns.bannedAtV(offIP) {
+				break // from here on the score may be swept at any time
 			}
+			// each handled message passed the limiter before its handler ran, and each call sent at
+			// most one message:  floor(handled/(limit+1)) <= score/penalty <= floor(calls/(limit+1))
+			handled := int(ns.served.Load())
+			got, _, _ := g.Score(offIP)
+			lo, hi := ns.rlPen*(handled/(rlLimit+1)), ns.rlPen*(ns.okCalls/(rlLimit+1))
+			if ns.bannedAtV(offIP) {
+				break
+			}
+			if got < lo || got > hi || got%ns.rlPen != 0 {
+				cnt, _ := ns.V.Conn.VerifMessageProtocol().VerifRateCounter("ok", ns.O.ID())
+				key := "rate-limit-penalty-missing-above-limit"
+				if got > hi {
+					key = "rate-limit-penalty-within-limit"
+				}
+				k.Violation(key, "after n well-formed requests in one interval the sender's score is not penalty x floor(n/(limit+1))",
+					ns.wit(map[string]any{"calls": ns.okCalls, "handled": handled, "limit": rlLimit, "penalty": ns.rlPen, "score": got, "want_min": lo, "want_max": hi, "counter": cnt, "last_error": fmt.Sprint(e)}))
+				return
+			}
+		}
+		ns.log("rate offence: %d calls, %d handled", ns.okCalls, ns.served.Load())
+		if ns.served.Load() < int64(need) && !ns.bannedAtV(offIP) {
+			k.Inconclusive("rate-offence-could-not-be-delivered")
+			return
 		}
 	case "apply-penalty:accumulated":
 		a := 1 + r.Intn(98)
@@ -1000,10 +1026,20 @@ func runNetBan(k *mon.Case) {
 
 	// (b) disconnected
 	disconnected := waitUntil(10*time.Second, func() bool { return !ns.V.Connected(ns.O) })
+	var d string
+	var e error
+	servedAfterBan := false
 	if !disconnected {
+		// logical confirmation: a request sent after the ban was visible is still handled by the
+		// victim; failing that, the connection must survive the full 30 s to count as "never closed"
 		before := ns.served.Load()
-		d, e := ns.request(ns.O, ns.V, "ok", []byte("hello"))
-		servedAfterBan := ns.served.Load() > before
+		d, e = ns.request(ns.O, ns.V, "ok", []byte("hello"))
+		servedAfterBan = waitUntil(2*time.Second, func() bool { return ns.served.Load() > before })
+		if !servedAfterBan {
+			disconnected = waitUntil(20*time.Second, func() bool { return !ns.V.Connected(ns.O) })
+		}
+	}
+	if !disconnected {
 		ns.log("still connected 10 s after the ban; a further request was served by V: %v (reply %q, err %v)", servedAfterBan, d, e)
 		k.Violation("banned-peer-not-disconnected:"+ns.trigger, "the sender's IP is banned but the connection to it stays open (and keeps being served)",
 			ns.wit(map[string]any{"request_served_after_ban": servedAfterBan, "reply": d, "error": fmt.Sprint(e), "banPeer_errors_logged_by_victim": ns.V.Logger.Count("banpeer-error")}))
@@ -1129,7 +1165,12 @@ func runNetLegal(k *mon.Case) {
 	intervals := 2 + k.R.Intn(3)
 	okIntervals := 0
 	for iv := 0; iv < intervals; iv++ {
-		// wait for a reset (counter back to 0) so that the burst starts in a fresh interval
+		// every earlier message has been handled, and the limiter has reset since: the burst below
+		// is all that the limiter can count until its next reset
+		if !ns.settled(10 * time.Second) {
+			k.Inconclusive("earlier-requests-never-handled")
+			return
+		}
 		if !waitUntil(10*time.Second, func() bool { c, _ := mp.VerifRateCounter("ok", ns.O.ID()); return c == 0 }) {
 			k.Inconclusive("rate-counter-never-reset")
 			return
@@ -1145,9 +1186,9 @@ func runNetLegal(k *mon.Case) {
 				maxSeen = c
 			}
 		}
-		ns.log("interval %d: %d requests, highest counter seen %d", iv, n, maxSeen)
+		ns.log("interval %d: %d requests (%d handled so far of %d), highest counter seen %d", iv, n, ns.served.Load(), ns.okCalls, maxSeen)
 		k.Count("legal_requests", n)
-		if maxSeen <= rlLimit {
+		if maxSeen == n {
 			okIntervals++
 		}
 		if sc, ex, has := g.Score("127.0.0.3"); has {
@@ -1155,6 +1196,12 @@ func runNetLegal(k *mon.Case) {
 				ns.wit(map[string]any{"score": sc, "expiration": ex, "limit": rlLimit, "interval_ms": 400, "requests_this_interval": n}))
 			return
 		}
+	}
+	ns.settled(5 * time.Second)
+	if sc, ex, has := g.Score("127.0.0.3"); has {
+		k.Violation("legal-traffic-penalised:limit-messages-per-interval", "at most `limit` well-formed messages per interval left a score for the sender",
+			ns.wit(map[string]any{"score": sc, "expiration": ex, "limit": rlLimit, "interval_ms": 400}))
+		return
 	}
 	if !ns.V.Connected(ns.O) {
 		k.Violation("legal-traffic-disconnected", "a peer that only sent legal traffic was disconnected", ns.wit(nil))
